@@ -30,8 +30,31 @@ type gcTaskState struct {
 
 func dockerDead(state string) bool { return state == "absent" || state == "exited" || state == "dead" }
 
+// resolveID: container runtimes accept a unique prefix of an id (the host veth names carry only nine characters).
+func (w *World) resolveID(id string) string {
+	if id == "" || w.byID[id] != nil || w.leftovers[id] != nil {
+		return id
+	}
+	var found []string
+	for _, k := range sortedKeys(w.byID) {
+		if strings.HasPrefix(k, id) {
+			found = append(found, k)
+		}
+	}
+	for _, k := range sortedKeys(w.leftovers) {
+		if strings.HasPrefix(k, id) {
+			found = append(found, k)
+		}
+	}
+	if len(found) == 1 {
+		return found[0]
+	}
+	return id
+}
+
 // runtimeState returns the runtime's truth about an id: state ("absent" if unknown), pod namespace and name.
 func (w *World) runtimeState(id string) (state, ns, name string) {
+	id = w.resolveID(id)
 	if c := w.byID[id]; c != nil {
 		return c.State, c.Pod.NS, c.Pod.Name
 	}
@@ -52,28 +75,11 @@ func criState(state string) string {
 	return "ready"
 }
 
-// truthDead: would the runtime, asked now without fault, report the container gone or exited?
-func (w *World) truthDead(id string) bool {
-	st, _, _ := w.runtimeState(id)
-	if w.cfg.Containerd {
-		return criState(st) != "ready"
-	}
-	return dockerDead(st)
-}
-
-// mustBeCleaned: the liveness obligation. Under containerd galaxy additionally keeps the state of a not-ready
-// sandbox while the pod still reports a waiting or running container; that extra caution is not counted against it.
-func (w *World) mustBeCleaned(id string) bool {
-	if !w.truthDead(id) {
-		return false
-	}
-	st, ns, name := w.runtimeState(id)
-	if !w.cfg.Containerd || criState(st) == "absent" {
-		return true
-	}
+// podRunsContainers: does the pod (API truth) report a container that is waiting or running?
+func (w *World) podRunsContainers(ns, name string) bool {
 	o := w.K.Get("pods", ns, name)
 	if o == nil {
-		return true
+		return false
 	}
 	var p struct {
 		Status struct {
@@ -88,11 +94,33 @@ func (w *World) mustBeCleaned(id string) bool {
 	_ = json.Unmarshal(o.JSON, &p)
 	for _, cs := range p.Status.ContainerStatuses {
 		if cs.State.Waiting != nil || cs.State.Running != nil {
-			return false
+			return true
 		}
 	}
-	return true
+	return false
 }
+
+// truthDead: may the state of this container be collected now? docker: the runtime, asked without fault, reports it
+// gone, exited or dead. containerd: the sandbox is gone, or it is not ready and the pod reports no waiting or running
+// container ("never for a running one": containers of a pod live in the sandbox's network namespace).
+func (w *World) truthDead(id string) bool {
+	st, ns, name := w.runtimeState(id)
+	if !w.cfg.Containerd {
+		return dockerDead(st)
+	}
+	switch criState(st) {
+	case "absent":
+		return true
+	case "notready":
+		return !w.podRunsContainers(ns, name)
+	}
+	return false
+}
+
+// mustBeCleaned: the liveness obligation is the same predicate: what may be collected must be collected within the
+// bounded number of rounds. A not-ready sandbox whose pod still runs containers is kept on purpose; the obligation
+// starts when the runtime has removed the sandbox or the pod's containers have stopped.
+func (w *World) mustBeCleaned(id string) bool { return w.truthDead(id) }
 
 func (w *World) handleRuntime(t *core.Task, r *core.Req) core.Resp {
 	id := r.A[0]
@@ -153,8 +181,9 @@ func (w *World) setState(c *Container, st string) {
 	}
 	c.State = st
 	w.S.Stat("op.state." + st)
-	if st != "absent" && w.C.Prob(2, 3) {
-		// kubelet reports the container as terminated (it may lag: then the status stays "running")
+	if st != "absent" && w.C.Prob(1, 2) {
+		// kubelet reports the pod's containers as terminated; otherwise they stay waiting/running (status lag, or the
+		// containers are restarted in a replacement sandbox)
 		w.setContainerStatus(c.Pod, "terminated")
 	}
 }
@@ -211,7 +240,11 @@ func (w *World) startGCRound() {
 	w.S.Stat("op.gc-round")
 	inst := w.inst
 	round := w.gcRound
-	for _, which := range []string{"ip", "dirs"} {
+	passes := []string{"ip", "dirs"}
+	if w.phase >= 2 || w.C.Prob(1, 2) {
+		passes = append(passes, "veth") // the real period of the veth collector is three times that of the others
+	}
+	for _, which := range passes {
 		which := which
 		t := w.S.Spawn(fmt.Sprintf("gc:%s#%d", which, round), w.proc, func() { gcTask(inst, which, round) })
 		t.Tag = "gc"
@@ -393,6 +426,9 @@ func (w *World) oracleC17Liveness() {
 		}
 		w.S.Stat("probe.dead-container-clean")
 	}
+	if w.S.Viol == nil {
+		w.oracleC17Links()
+	}
 }
 
 // liveUser: another, living container legitimately uses the same mapping.
@@ -420,6 +456,9 @@ func (w *World) finalPhase() bool {
 	case "C17":
 		switch w.finalStage {
 		case 0, 1:
+			if w.finalStage == 0 {
+				w.settleSandboxes()
+			}
 			w.finalStage++
 			w.startGCRound()
 			return true
@@ -463,4 +502,84 @@ func (w *World) finalPhase() bool {
 	}
 	w.phase = 4
 	return false
+}
+
+// settleSandboxes (containerd, before the final rounds): a dead sandbox that is not the pod's current one is
+// eventually removed by the runtime (kubelet's sandbox GC), or kubelet reports the pod's containers as stopped;
+// for part of the not-ready sandboxes whose pods still run containers one of the two happens now, the rest stay kept.
+func (w *World) settleSandboxes() {
+	if !w.cfg.Containerd {
+		return
+	}
+	for _, c := range w.conts {
+		if criState(c.State) == "notready" && w.podRunsContainers(c.Pod.NS, c.Pod.Name) && w.C.Prob(1, 2) {
+			c.State = "absent"
+			w.S.Stat("op.runtime-removes-dead-sandbox")
+		}
+	}
+	for _, id := range sortedKeys(w.leftovers) {
+		lo := w.leftovers[id]
+		if criState(lo.State) == "notready" && w.podRunsContainers(lo.PodNS, lo.PodName) {
+			w.S.Stat("probe.kept-sandbox-of-pod-with-running-containers")
+			if w.C.Prob(1, 2) {
+				lo.State = "absent"
+				w.S.Stat("op.runtime-removes-dead-sandbox")
+			}
+		}
+	}
+}
+
+// ---- host veth devices ------------------------------------------------------------------------------------------
+//
+// C17's statement lists files and port mappings; the collector of host veth devices (cleanupVeth) is extra
+// behaviour of the same garbage collector and is judged by the same rule: a device "v-h<id>[-<x>]" of type veth is
+// deleted only for a container that may be collected, never when the runtime could not be asked, nothing else is
+// ever deleted, and the devices of dead containers disappear within the bounded number of (veth) passes.
+
+func vethContainer(name, typ string) (cid string, ok bool) {
+	if typ != "veth" || !strings.HasPrefix(name, "v-h") {
+		return "", false
+	}
+	parts := strings.Split(name[3:], "-")
+	if len(parts) > 2 {
+		return "", false
+	}
+	return parts[0], true
+}
+
+func (w *World) linkFault(t *core.Task, name string) int {
+	if w.faultsOn && w.nlRate > 0 && w.galaxyTask(t) && w.C.Prob(w.nlRate, 500) {
+		w.S.Stat("fault.nl.linkdel.err")
+		w.S.Sig("F:nl.err")
+		w.unscripted++
+		return 16 // EBUSY
+	}
+	return 0
+}
+
+func (w *World) onLinkDelete(t *core.Task, name, typ string) {
+	if !w.armed("C17") || t == nil || !w.galaxyTask(t) {
+		return
+	}
+	cid, ok := vethContainer(name, typ)
+	if !ok {
+		w.fail("C17.safety", "foreign-link-deleted", "GC task %s deleted the network device %s (type %s), which is not the host veth of any container", t.Name, name, typ)
+		return
+	}
+	w.checkGCAction(t, "deletion of host veth "+name, cid)
+	if w.S.Viol == nil {
+		w.S.Stat("probe.gc-veth-removal")
+	}
+}
+
+func (w *World) oracleC17Links() {
+	for _, name := range w.Links.Names() {
+		cid, ok := vethContainer(name, w.Links.Type(name))
+		if !ok || !w.mustBeCleaned(cid) {
+			continue
+		}
+		st, _, _ := w.runtimeState(cid)
+		w.fail("C17.liveness", "veth-left", "two fault-free passes of the veth collector after faults stopped, the host veth %s of container %s (runtime: %s) still exists", name, cid, st)
+		return
+	}
 }
